@@ -8,10 +8,10 @@ from vf.engine import Violation, InvalidCase
 from vf.fixtures import check, wone_of
 
 PROPERTY = "C05"
-BUDGET = {"quick": 2000, "thorough": 6000}
+BUDGET = {"quick": 8000, "thorough": 24000}
 RULE = ("2-6 initial systems with priorities in {0,1,2} (ties), 1-3 scripts (actor, timestep, actions) where an action "
-        "removes self / an earlier / a later / an equal-priority system or registers a fresh system of higher, equal or "
-        "lower priority from inside execute(); 3-5 timesteps. Oracle = validity predicate over the per-timestep log and "
+        "(always on, or - in a third of the cases - with sparse start/frequency windows, so that in some timesteps nobody else is due) removes self / an earlier / a later / an equal-priority system or registers a fresh system of higher, equal or "
+        "lower priority from inside execute(), or raises an exception that the caller catches before carrying on (the cut-short timestep is then requested again); 3-5 completed timesteps. Oracle = validity predicate over the per-timestep log and "
         "the harness' own event trace (no double run; every system registered for the whole timestep runs once, in "
         "priority/registration order; removed-before-turn never runs; mid-timestep registrations run 0 or 1 times; "
         "unscripted timesteps follow C01 order exactly). Non-trivial: the acting system is not last in the order and "
@@ -23,8 +23,8 @@ ASSUMPTIONS = ["only fresh ids are registered mid-timestep (re-registration of a
 
 
 class Scripted(System):
-    def __init__(self, id, model, priority, world, token):
-        super().__init__(id, model, priority=priority)
+    def __init__(self, id, model, priority, world, token, start=0, frequency=1):
+        super().__init__(id, model, priority=priority, start=start, frequency=frequency)
         self.world = world
         self.token = token
 
@@ -49,8 +49,13 @@ class FalsyScripted(Scripted):
         return 0
 
 
+class Boom(Exception):
+    """raised by a scripted system out of execute(): user code catches it and carries on with the same model"""
+
+
 class World:
     def __init__(self, case):
+        self.raised = set()
         self.model = Model()
         self.events = []
         self.all = []            # token -> system
@@ -61,8 +66,10 @@ class World:
         self.labels = set()
         self.free_ids = []       # ids of removed systems, reusable by a *new* object
         self.eq_systems = bool(case.get("eq"))
-        for p in case["systems"]:
-            self.register(int(p) % 4, event=False)
+        self.win = {}            # token -> (start, frequency): most systems are always on, some have a sparse window
+        wins = list(case.get("windows") or [])
+        for i, p in enumerate(case["systems"]):
+            self.register(int(p) % 4, event=False, win=wins[i] if i < len(wins) else None)
         n0 = len(self.all)
         if n0 == 0:
             raise InvalidCase("no systems")
@@ -73,9 +80,18 @@ class World:
     def order(self):
         return [t for t, _ in sorted(self.live.items(), key=lambda kv: (-kv[1][0], kv[1][1]))]
 
-    def register(self, prio, event=True, sid=None):
+    def due(self, tok, t):
+        start, freq = self.win[tok]
+        return start <= t and (t - start) % freq == 0
+
+    def register(self, prio, event=True, sid=None, win=None):
         tok = len(self.all)
-        s = (FalsyScripted if tok % 3 == 2 else (EqScripted if self.eq_systems else Scripted))(sid or f"sys{tok}", self.model, prio, self, tok)
+        start, freq = (max(0, int(win[0])), max(1, int(win[1]))) if win else (0, 1)
+        self.win[tok] = (start, freq)
+        if (start, freq) != (0, 1):
+            self.labels.add("sparse-window")
+        s = (FalsyScripted if tok % 3 == 2 else (EqScripted if self.eq_systems else Scripted))(sid or f"sys{tok}", self.model, prio, self, tok,
+                                                                                                start=start, frequency=freq)
         self.all.append(s)
         self.model.systems.add_system(s)
         self.seq += 1
@@ -96,6 +112,8 @@ class World:
             raise Violation("rejected-object-ran", "an object whose registration was rejected (id in use) was executed")
         self.events.append(("run", tok))
         t = self.model.systems.timestep
+        if not self.due(tok, t):
+            raise Violation("ran-while-not-due", f"timestep {t}: system {tok} ran outside its window (start, frequency) = {self.win[tok]}")
         for act in self.scripts.get((tok, t), ()):
             order = self.order()
             mypos = order.index(tok) if tok in order else None
@@ -131,9 +149,14 @@ class World:
                 if len(self.all) < self.max_total:
                     if act.get("reuse") and self.free_ids:
                         self.labels.add("add-reused-id")
-                        self.register(prio, sid=self.free_ids.pop())
+                        self.register(prio, sid=self.free_ids.pop(), win=act.get("win"))
                     else:
-                        self.register(prio)
+                        self.register(prio, win=act.get("win"))
+            elif act["a"] == "raise":
+                if (tok, t) not in self.raised:           # once: the aborted timestep is requested again afterwards
+                    self.raised.add((tok, t))
+                    self.labels.add("system-raised-after-changes" if any(k != "run" for k, _ in self.events) else "system-raised")
+                    raise Boom(tok)
             else:
                 raise InvalidCase(act)
 
@@ -141,11 +164,52 @@ class World:
 def run_case(case):
     w = World(case)
     steps = max(1, min(int(case.get("steps", 3)), 8))
-    for t in range(steps):
+    decoy = None
+    if case.get("decoy"):
+        # a second model alive at the same time whose systems carry the SAME ids (other priorities) and come and go between
+        # the timesteps of the model under test: schedulers are independent of each other
+        decoy = Model()
+        dlog = []
+
+        class _D(System):
+            def execute(self):
+                dlog.append(self.id)
+        for i in range(len(w.all)):
+            decoy.systems.add_system(_D(f"sys{i}", decoy, priority=i % 3))
+    done = 0
+    for _ in range(steps + 3):
+        if done >= steps:
+            break
+        t = w.model.systems.timestep
         start = w.order()
         del w.events[:]
-        scripted = any(tt == t for (_, tt) in w.scripts)
-        w.model.execute()
+        if decoy is not None:
+            w.labels.add("second-model-alive")
+            victim = f"sys{t % max(1, len(case['systems']))}"
+            if decoy.systems[victim] is not None:
+                decoy.systems.remove_system(victim)
+            else:
+                decoy.systems.add_system(_D(victim, decoy, priority=5))
+            decoy.execute()
+        try:
+            w.model.execute()
+        except Boom:
+            # the timestep was cut short by user code; the caller caught the error. Nothing is claimed about the rest of THAT
+            # timestep, but what did run must obey the rules (no double run, nothing after its removal) and every later
+            # timestep is an ordinary one
+            ev = list(w.events)
+            runs = [x for k, x in ev if k == "run"]
+            for tok in set(runs):
+                if runs.count(tok) > 1:
+                    raise Violation("ran-twice", f"timestep {t} (cut short by an exception): system {tok} ran {runs.count(tok)} times; events {ev}")
+            gone = set()
+            for k, x in ev:
+                if k == "run" and x in gone:
+                    raise Violation("ran-after-removal", f"timestep {t} (cut short): system {x} ran after it was removed; events {ev}")
+                if k == "removed":
+                    gone.add(x)
+            continue
+        done += 1
         ev = list(w.events)
         runs = [x for k, x in ev if k == "run"]
         removed = {x for k, x in ev if k == "removed"}
@@ -154,6 +218,7 @@ def run_case(case):
             if runs.count(tok) > 1:
                 raise Violation("ran-twice", f"timestep {t}: system {tok} ran {runs.count(tok)} times; start order {start}, events {ev}")
         # (2)+(3) stayers run exactly once, in order
+        start = [tok for tok in start if w.due(tok, t)]       # the systems due in this timestep, in scheduling order
         stayers = [tok for tok in start if tok not in removed]
         missing = [tok for tok in stayers if tok not in runs]
         if missing:
@@ -175,7 +240,7 @@ def run_case(case):
         if not any(k != "run" for k, _ in ev):
             if runs != start:
                 raise Violation("quiet-step-order", f"timestep {t}: ran {runs}, expected {start}")
-        check(w.model.systems.timestep == t + 1, "timestep", f"timestep is {w.model.systems.timestep} after {t + 1} steps")
+        check(w.model.systems.timestep == t + 1, "timestep", f"timestep is {w.model.systems.timestep} after a completed step from {t}")
     if len(case["systems"]) > 32:
         w.labels.add("queue>32")
     return {"nontrivial": w.nontrivial, "labels": sorted(w.labels)}
@@ -183,9 +248,11 @@ def run_case(case):
 
 def _action():
     rem = st.fixed_dictionaries({"a": st.just("remove"), "target": st.integers(0, 7)})
-    add = st.fixed_dictionaries({"a": st.just("add"), "prio": st.integers(0, 3), "reuse": st.booleans()})
+    win = st.sampled_from([None, None, None, [0, 1], [1, 1], [0, 2], [1, 2], [2, 3], [0, 5]])
+    add = st.fixed_dictionaries({"a": st.just("add"), "prio": st.integers(0, 3), "reuse": st.booleans(), "win": win})
     dup = st.fixed_dictionaries({"a": st.just("add_dup"), "target": st.integers(0, 7), "prio": st.integers(0, 3)})
-    return wone_of(rem, rem, add, dup)
+    boom = st.just({"a": "raise"})
+    return wone_of(rem, rem, rem, rem, add, add, dup, dup, boom)
 
 
 def _large(tier):
@@ -203,7 +270,9 @@ def strategy(tier):
                                     "actions": st.lists(_action(), min_size=1, max_size=3)})
     small = st.fixed_dictionaries({"systems": st.lists(st.integers(0, 2), min_size=2, max_size=6),
                                    "scripts": st.lists(script, min_size=1, max_size=3),
-                                   "steps": st.integers(3, 5), "eq": st.booleans()})
+                                   "steps": st.integers(3, 5), "eq": st.booleans(), "decoy": st.sampled_from([False, False, False, True]),
+                                   "windows": st.one_of(st.just([]), st.just([]), st.lists(st.sampled_from([[0, 1], [0, 1], [0, 2], [1, 2], [1, 3], [2, 1], [0, 5]]),
+                                                                                            min_size=2, max_size=6))})
     return wone_of(*([small] * 9 + [_large(tier)]))
 
 
